@@ -17,10 +17,20 @@ class Verifier(Engine):
 
     def verify_function(self, name):
         """symbolically execute function `name` (short form) against its contract; fills self.obls"""
-        fn = self.find_fn(name)
+        base = name.split(' @')[0]
+        fn = self.find_fn(base)
         c = self.c.funcs.get(name)
-        if fn is None: raise Unsupported('function %s not found in /repo (contract-unbound)' % name)
+        if fn is None: raise Unsupported('function %s not found in /repo (contract-unbound)' % base)
         self.cur = name; self.top_name = fn.name
+        self.top_contract = c if ' @' in name else None
+        self.top_uses = {}
+        if c is not None and c.flags.get('uses'):
+            for u in c.flags['uses'].split(','):
+                u = u.strip()
+                uc = self.c.funcs.get(u)
+                if uc is None: raise Unsupported('contract-error: %s uses unknown contract %s' % (name, u))
+                self.top_uses[u.split(' @')[0]] = uc
+            if self.top_contract is None: self.top_contract = c
         self.fired_events = set()
         if c is not None and c.flags.get('implements'):
             own = set(); allowed = set()
@@ -85,7 +95,7 @@ class Verifier(Engine):
         self.obls.append(o)
         self.start(fr, st)
         # every ghost event of the contract must bind to an instruction that some explored path reaches
-        if c is not None:
+        if c is not None and ' @' not in name:
             for ev, stmts, txt in c.ghost:
                 if (c.name, ev) not in self.fired_events:
                     o = Obl('%s/ghost.bound/%s' % (name, re.sub(r'\s+', '_', ev)), 'ghost.bound', [], BoolVal(False), [], fn.pos, 'ghost event %r binds to no reachable instruction' % ev)
@@ -112,7 +122,9 @@ class Verifier(Engine):
         if c.ghost:
             env0 = self.result_env(fr, st, vals, fn)
             for ev, stmts, txt in c.ghost:
-                if ev == 'at return': self.run_ghost(stmts, env0, fr, st, txt)
+                if ev == 'at return':
+                    self.fired_events.add((c.name, ev))
+                    self.run_ghost(stmts, env0, fr, st, txt)
         env = self.result_env(fr, st, vals, fn)
         for n, (txt, ast) in enumerate(c.ensures):
             parts = self.split_conj(ast)
